@@ -7,7 +7,7 @@ stats = {}
 for d in sorted(glob.glob(os.path.join(V, 'seeded', 'C*'))):
     sid = os.path.basename(d)
     m = json.load(open(os.path.join(d, 'meta.json')))
-    rnd = {'s': 1, 'b': 2, 'c': 3}[sid.split('-')[1][0]]
+    rnd = {'s': 1, 'b': 2, 'c': 3, 'd': 4}[sid.split('-')[1][0]]
     cr = m.get('check_result', {})
     caught_now = None
     clause = ''
@@ -33,7 +33,7 @@ for d in sorted(glob.glob(os.path.join(V, 'seeded', 'C*'))):
 out = ['# Seeded changes (independent sub-agents; property text + scratch worktree only)', '',
        'Each directory holds `patch.diff`, `demo.py` (exits 1 with the change, 0 without), `meta.json` (summary, what it needs to',
        'manifest, my confirmation run: demo on both trees + the full repository test suite on both trees, and the check result).',
-       'Round 1 (`-s`): free choice.  Round 2 (`-b`) and round 3 (`-c`): steered towards object/process histories, unusual input',
+       'Round 1 (`-s`): free choice.  Round 2 (`-b`), round 3 (`-c`) and round 4 (`-d`): steered towards object/process histories, unusual input',
        'forms, rarely used entry points, cooperating edits, small systematic errors.  "first" = the check as it stood when the change',
        'arrived.', '']
 for r in sorted(stats):
